@@ -30,7 +30,7 @@ func GetTracesQuery(ctx context.Context, idx *SQLIndexQuery, limit int, fromNS i
 		query.AndWhere(sql.NewIn(sql.NewRawObject("(trace_id, span_id)"), idx))
 	}
 	if fromNS > 0 {
-		query.AndWhere(sql.Gt(sql.NewRawObject("start_time_unix_nano"), sql.NewIntVal(fromNS)))
+		query.AndWhere(sql.Ge(sql.NewRawObject("start_time_unix_nano"), sql.NewIntVal(fromNS)))
 	}
 	if toNS > 0 {
 		query.AndWhere(sql.Le(sql.NewRawObject("start_time_unix_nano"), sql.NewIntVal(toNS)))
